@@ -53,15 +53,22 @@ structure Info where
   deriving DecidableEq, Repr
 
 /-- `strconv.ParseUint(s, 10, 8)` -/
-def parseUint8 (s : String) : Option Nat :=
-  let cs := s.toList
+def parseUint8 (cs : List Char) : Option Nat :=
   if cs = [] ∨ ¬ cs.all Char.isDigit then none else
   let n := cs.foldl (fun acc c => acc * 10 + (c.toNat - 48)) 0
   if n ≤ 255 then some n else none
 
+/-- `strings.Split(s, ".")` -/
+def splitOnDot : List Char → List (List Char)
+  | [] => [[]]
+  | c :: cs =>
+    match splitOnDot cs with
+    | [] => [[c]]   -- unreachable
+    | p :: ps => if c = '.' then [] :: p :: ps else (c :: p) :: ps
+
 /-- `stream.ParseVersion` -/
 def parseVersion (s : String) : Option (Nat × Nat) :=
-  match s.splitOn "." with
+  match splitOnDot s.toList with
   | [a, b] => do
     let x ← parseUint8 a
     let y ← parseUint8 b
@@ -110,6 +117,13 @@ def skipElement : Nat → List HTok → Except HErr Unit
   | d + 1, .tok (.stop _) :: ts => skipElement d ts
   | d, _ :: ts => skipElement d ts
 
+/-- the checks of `Expect` on the parsed stream information -/
+def finalCheck (recv ws : Bool) (i : Info) : Except HErr Info :=
+  if i.version ≠ (1, 0) then .error .unsupportedVersion
+  else if ¬ ws ∧ i.xmlns ≠ nsClient ∧ i.xmlns ≠ nsServer then .error .invalidNamespace
+  else if ¬ recv ∧ i.id = "" then .error .badFormat
+  else .ok i
+
 /-- the checks on the stream-open element once it has been found -/
 def acceptStart (recv ws : Bool) (parseJid : String → Option String) (i0 : Info)
     (n : Name) (attrs : List Attr) (rest : List HTok) : Except HErr Info :=
@@ -123,11 +137,7 @@ def acceptStart (recv ws : Bool) (parseJid : String → Option String) (i0 : Inf
     | .ok () =>
       match applyAttrs parseJid attrs { i0 with name := n } with
       | .error e => .error e
-      | .ok i =>
-        if i.version ≠ (1, 0) then .error .unsupportedVersion
-        else if ¬ ws ∧ i.xmlns ≠ nsClient ∧ i.xmlns ≠ nsServer then .error .invalidNamespace
-        else if ¬ recv ∧ i.id = "" then .error .badFormat
-        else .ok i
+      | .ok i => finalCheck recv ws i
 
 /-- the loop of `Expect` over the filtered tokens -/
 def expectLoop (recv ws : Bool) (parseJid : String → Option String) (i0 : Info) :
@@ -170,24 +180,39 @@ structure OutHdr where
 
 def outNS (ws s2s : Bool) : String := if ws then nsFraming else if s2s then nsServer else nsClient
 
+/-- receiving side: the header's origin is the established one, or none is known yet on a
+client-to-server stream -/
+def originOK (s2s : Bool) (a : Addrs) (i : Info) : Prop := (s2s = false ∧ a.src = "") ∨ a.src = i.src
+
+/-- receiving side: the header's location is the established one, or none is known yet -/
+def locationOK (a : Addrs) (i : Info) : Prop := a.to = "" ∨ a.to = i.to
+
+/-- initiating side: the header comes from the location we connected to and, if it names a
+recipient at all, names our origin -/
+def peerOK (a : Addrs) (i : Info) : Prop := a.src = i.src ∧ (i.to = "" ∨ a.to = i.to)
+
+instance (s2s : Bool) (a : Addrs) (i : Info) : Decidable (originOK s2s a i) := by
+  unfold originOK; exact inferInstance
+instance (a : Addrs) (i : Info) : Decidable (locationOK a i) := by
+  unfold locationOK; exact inferInstance
+instance (a : Addrs) (i : Info) : Decidable (peerOK a i) := by
+  unfold peerOK; exact inferInstance
+
 /-- one stream (re)start.  Receiving: expect the peer's header, compare with what is
-established (an unknown origin is learned on c2s streams only, an unknown location always),
-answer with `to` = their `from`, `from` = their `to`.  Initiating: send `to` = location,
-`from` = origin first, then expect; the peer's `from` must be the location, its `to` — if
-it sends one — the origin. -/
+established, answer with `to` = their `from`, `from` = their `to`.  Initiating: send
+`to` = location, `from` = origin first, then expect and compare.  (The two comparisons of
+either role return the same error, so they are modelled as one test.) -/
 def negStep (recv ws s2s : Bool) (parseJid : String → Option String) (a : Addrs)
     (toks : List HTok) : Except HErr (Addrs × Info × OutHdr) :=
   match expect recv ws parseJid { to := a.to, src := a.src } toks with
   | .error e => .error e
   | .ok i =>
     if recv then
-      if ¬ (¬ s2s ∧ a.src = "") ∧ a.src ≠ i.src then .error .addrMismatch
-      else if ¬ (a.to = "") ∧ a.to ≠ i.to then .error .addrMismatch
-      else .ok (⟨i.to, i.src⟩, i, ⟨i.src, i.to, outNS ws s2s⟩)
+      if originOK s2s a i ∧ locationOK a i then .ok (⟨i.to, i.src⟩, i, ⟨i.src, i.to, outNS ws s2s⟩)
+      else .error .addrMismatch
     else
-      if a.src ≠ i.src then .error .addrMismatch
-      else if i.to ≠ "" ∧ a.to ≠ i.to then .error .addrMismatch
-      else .ok (⟨i.to, i.src⟩, i, ⟨a.src, a.to, outNS ws s2s⟩)
+      if peerOK a i then .ok (⟨i.to, i.src⟩, i, ⟨a.src, a.to, outNS ws s2s⟩)
+      else .error .addrMismatch
 
 /-- a whole negotiation: the verdict for every header until the first refusal -/
 def negRun (recv ws s2s : Bool) (parseJid : String → Option String) :
